@@ -128,8 +128,14 @@ pub fn policy_set(rng: &mut Rng) -> Vec<Policy> {
 }
 
 pub fn run_c14(prop: &str, seed: u64, index: usize, _tier: Tier) -> RunReport {
-    let (mut case, d) = generate(seed, Profile::AllPolicies, false, 0);
+    // one run in six: a directory / symlink squats the name of one of the next WAL files, so that a roll-over fails
+    // ("... returns the same positions, eviction counts and errors ...")
+    let squat = seed % 6 == 0;
+    let (mut case, d) = if squat { crate::gen::generate_opts(seed, Profile::AllPolicies, false, crate::gen::SQUATTER, true, true) } else { generate(seed, Profile::AllPolicies, false, 0) };
     let mut rep = RunReport::default();
+    if squat && d.steps.iter().any(|s| matches!(s.outcome, crate::model::Outcome::Err(crate::model::ErrKind::Io))) {
+        rep.count("histories_with_a_failed_rollover", 1);
+    }
     rep.digest = d.digest.0;
     rep.probes = d.probes.clone();
     rep.states.push(state_signature(&d));
